@@ -4,7 +4,7 @@
 From Coq Require Import List NArith Bool Lia ZifyN ZifyBool.
 From SV Require Import Reconciler.Retries Reconciler.Model Reconciler.RetriesProofs Reconciler.CommitProofs
   Reconciler.RoundProofs Reconciler.CoverProofs Reconciler.StepProofs Reconciler.TableWf Reconciler.StreamProofs
-  Reconciler.PhaseProofs.
+  Reconciler.PhaseProofs Reconciler.BatchProofs.
 Import ListNotations.
 Open Scope N_scope.
 
@@ -208,23 +208,70 @@ Proof.
       * destruct (IH _ _ _ _ _ _ _ _ _ _ _ _ H) as [X|[d [X1 X2]]]; [exists ch; split; [left; reflexivity|exact X]|exists d; split; [right; exact X1|exact X2]].
 Qed.
 
-Theorem round_keeps_inv : forall cf e s e' s', cf_batch cf = false ->
+Lemma batch_collect_lastrev : forall chs rs q dels upds nrec lastrev q' dels' upds' nrec' lastrev',
+  batch_collect rs chs q dels upds nrec lastrev = (q', dels', upds', nrec', lastrev') ->
+  lastrev' = lastrev \/ exists ch, In ch chs /\ lastrev' = c_rev ch.
+Proof.
+  induction chs as [|ch rest IH]; intros rs q dels upds nrec lastrev q' dels' upds' nrec' lastrev' H; cbn [batch_collect] in H.
+  - injection H as H1 H2 H3 H4 H5. left. symmetry. exact H5.
+  - right. destruct (negb (c_del ch) && negb (is_pending (c_obj ch))).
+    + destruct (IH _ _ _ _ _ _ _ _ _ _ _ H) as [X|[d [X1 X2]]]; [exists ch; split; [left; reflexivity|exact X]|exists d; split; [right; exact X1|exact X2]].
+    + destruct (rs <=? nrec + 1).
+      * injection H as H1 H2 H3 H4 H5. exists ch. split; [left; reflexivity|symmetry; exact H5].
+      * destruct (IH _ _ _ _ _ _ _ _ _ _ _ H) as [X|[d [X1 X2]]]; [exists ch; split; [left; reflexivity|exact X]|exists d; split; [right; exact X1|exact X2]].
+Qed.
+
+(* the change-stream phase of a round, either mode *)
+Definition phase1 (cf : cfg) (snap : table) (chs : list change) (e : env) (q : retries)
+  : env * retries * list opres * N * N :=
+  if cf_batch cf then
+    let '(q, dels, upds, nrec, lastrev) := batch_collect (cf_rs cf) chs q [] [] 0 0 in
+    let (e, q) := batch_deletes snap dels e q in
+    let (e, l) := batch_update_calls snap upds e [] in
+    let (q, res) := batch_results l q [] in
+    (e, q, res, nrec, lastrev)
+  else single (cf_rs cf) snap chs e q [] 0 0.
+
+Lemma phase1_inv : forall cf snap c0 chs e q e1 q1 res1 nrec1 lastrev1,
+  phase_inv (Dlog e) snap e q [] (curs c0 0) chs ->
+  phase1 cf snap chs e q = (e1, q1, res1, nrec1, lastrev1) ->
+  (exists chs', phase_inv (Dlog e1) snap e1 q1 res1 (curs c0 lastrev1) chs') /\
+  (lastrev1 = 0 \/ exists ch, In ch chs /\ lastrev1 = c_rev ch).
+Proof.
+  intros cf snap c0 chs e q e1 q1 res1 nrec1 lastrev1 PH H. unfold phase1 in H. destruct (cf_batch cf).
+  - destruct (batch_collect (cf_rs cf) chs q [] [] 0 0) as [[[[qa dels] upds] nrec] lastrev] eqn:HC.
+    destruct (batch_deletes snap dels e qa) as [e2 q2] eqn:HD.
+    destruct (batch_update_calls snap upds e2 []) as [e3 l] eqn:HU.
+    destruct (batch_results l q2 []) as [q4 res] eqn:HR.
+    injection H as H1 H2 H3 H4 H5. subst e1 q1 res1 nrec1 lastrev1. split.
+    + apply (batch_inv _ _ _ _ _ _ _ _ _ _ _ _ _ _ _ _ _ PH HC HD HU HR).
+    + apply (batch_collect_lastrev _ _ _ _ _ _ _ _ _ _ _ _ HC).
+  - split; [apply (single_inv _ _ _ _ _ _ _ _ _ _ _ _ _ _ PH H)|apply (single_lastrev _ _ _ _ _ _ _ _ _ _ _ _ _ H)].
+Qed.
+
+Theorem round_keeps_inv : forall cf e s e' s',
   round_inv e s -> round cf e s = (e', s') -> round_inv e' s' /\ k_cursor s <= k_cursor s'.
 Proof.
-  intros cf e s e' s' Hb [[W [U P]] [Hc Hcov]] H.
-  unfold round, round_gen in H. rewrite Hb in H. cbv zeta in H.
+  intros cf e s e' s' [[W [U P]] [Hc Hcov]] H.
+  unfold round, round_gen in H. cbv zeta in H.
   set (snap := e_tab e) in *.
-  destruct (single (cf_rs cf) snap (changes_of snap (k_cursor s)) e (k_ret s) [] 0 0)
-    as [[[[e1 q1] res1] nrec1] lastrev1] eqn:E1.
+  change (if cf_batch cf
+          then let '(q, dels, upds, nrec, lastrev) := batch_collect (cf_rs cf) (changes_of snap (k_cursor s)) (k_ret s) [] [] 0 0 in
+               let (e0, q0) := batch_deletes snap dels e q in
+               let (e1, l) := batch_update_calls snap upds e0 [] in
+               let (q1, res) := batch_results l q0 [] in (e1, q1, res, nrec, lastrev)
+          else single (cf_rs cf) snap (changes_of snap (k_cursor s)) e (k_ret s) [] 0 0)
+    with (phase1 cf snap (changes_of snap (k_cursor s)) e (k_ret s)) in H.
+  destruct (phase1 cf snap (changes_of snap (k_cursor s)) e (k_ret s)) as [[[[e1 q1] res1] nrec1] lastrev1] eqn:E1.
   assert (INV0 : phase_inv (Dlog e) snap e (k_ret s) [] (curs (k_cursor s) 0) (changes_of snap (k_cursor s))).
   { constructor; first [assumption | exact Hc | apply snap_rel_refl | apply changes_stream_ok; exact W
                         | intros ch _ [] | intros r [] | constructor ]. }
-  destruct (single_inv _ _ _ _ _ _ _ _ _ _ _ _ _ _ INV0 E1) as [chs' [J1 J2 J3 J4 J5 J6 J7 J8 J9 J10 J11]].
+  destruct (phase1_inv _ _ _ _ _ _ _ _ _ _ _ INV0 E1) as [[chs' [J1 J2 J3 J4 J5 J6 J7 J8 J9 J10 J11]] LR].
   set (cur1 := curs (k_cursor s) lastrev1) in *.
   assert (SR : t_rev snap <= t_rev (e_tab e1)) by (destruct J3 as [X _]; exact X).
   assert (CM : k_cursor s <= cur1).
   { unfold cur1, curs. destruct (lastrev1 =? 0) eqn:E; [lia|]. apply N.eqb_neq in E.
-    destruct (single_lastrev _ _ _ _ _ _ _ _ _ _ _ _ _ E1) as [X|[ch [X1 X2]]]; [congruence|].
+    destruct LR as [X|[ch [X1 X2]]]; [congruence|].
     destruct (changes_stream_ok snap (k_cursor s) W) as [_ [_ [_ [_ S5]]]]. specialize (S5 ch X1). lia. }
   destruct (commit_status_gen true true (e_now e1) (e_tab e1) q1 res1) as [t1 q2] eqn:C1.
   assert (Hres1 : forall r, In r res1 -> r_orig r <= t_rev (e_tab e1) /\ r_rev r <= t_rev (e_tab e1)).
